@@ -299,6 +299,7 @@ static void build_alphabet() {
   struct NF { const char* txt; const char* form; const char* wkey; bool wcase; };
   struct IV { const char* txt; long long v; const char* c; bool range; };
   const IV ivals[] = {{"0", 0, "zero", false}, {"-7", -7, "neg", false}, {"42", 42, "pos", false},
+                      {"010", 10, "leading-zero", false},        // decimal, not octal
                       {"99999999999", 99999999999LL, "beyond-int32", true}};
   struct DV { const char* txt; double v; const char* c; bool range; };
   const DV dvals[] = {{"1.5", 1.5, "frac", false}, {"-2e3", -2000.0, "neg-exp", false},
